@@ -42,6 +42,7 @@ func sboxAddresses(s *boxStore) []string {
 func sboxFresh(c *vfCase, from *sbox, seed uint64) *sbox {
 	f := newSbox(c, seed, sboxMon{})
 	f.ignoreExcludeLB = from.ignoreExcludeLB
+	f.plainAdvs = from.plainAdvs
 	f.slist = &sboxSList{disabled: from.slist.disabled, members: map[string]bool{}}
 	for k, v := range from.slist.members {
 		f.slist.members[k] = v
@@ -115,7 +116,8 @@ func sboxDiff(a, b *sboxObserved) (string, string) {
 // sboxHistory runs one history with the monitors of mon.
 func sboxHistory(c *vfCase, mon sboxMon, events, epochMax int) *sbox {
 	sb := newSbox(c, c.R.U64(), mon)
-	sb.ignoreExcludeLB = c.R.Chance(1, 5)
+	sb.ignoreExcludeLB = c.R.Chance(1, 4)
+	sb.plainAdvs = c.R.Chance(1, 3)
 	g := &sboxGen{r: vfNewRand(c.R.U64()), sb: sb}
 	g.seed()
 	c.Logf("initial: %s", vfJSON(sb.dump()))
@@ -130,6 +132,9 @@ func sboxHistory(c *vfCase, mon sboxMon, events, epochMax int) *sbox {
 		}
 		if mon.c05 {
 			sb.quiescentC05()
+		}
+		if mon.c13 {
+			sb.quiescentC13()
 		}
 		if mon.c09 {
 			if sb.ctl.config == nil {
@@ -236,13 +241,18 @@ func sboxCause(kinds []string) string {
 }
 
 func TestVerif_C05(t *testing.T) {
-	vfMain(t, "C05", vfSizes{Quick: 90, Thorough: 2000}, sboxRule+"after every handler return the sessions must carry exactly the advertisements of the services currently held; at every quiescent point routes, attributes, live sessions and PeersForService are compared with the expectation computed from the resources; non-trivial = distinct expected (peer -> routes) constellation with at least one route",
+	vfMain(t, "C05", vfSizes{Quick: 400, Thorough: 3000}, sboxRule+"after every handler return the sessions must carry exactly the advertisements of the services currently held; at every quiescent point routes, attributes, live sessions and PeersForService are compared with the expectation computed from the resources; non-trivial = distinct expected (peer -> routes) constellation with at least one route",
 		func(c *vfCase) { sboxHistory(c, sboxMon{c05: true}, 30, 3) })
 }
 
 func TestVerif_C09(t *testing.T) {
-	vfMain(t, "C09", vfSizes{Quick: 60, Thorough: 1500}, sboxRule+"at every quiescent point the announcements (layer-2 holdings and answers per address/interface, routes per live session, PeersForService) are compared with two freshly booted speakers on a copy of the store; non-trivial = distinct non-empty announcement state reached",
+	vfMain(t, "C09", vfSizes{Quick: 100, Thorough: 1500}, sboxRule+"at every quiescent point the announcements (layer-2 holdings and answers per address/interface, routes per live session, PeersForService) are compared with two freshly booted speakers on a copy of the store; non-trivial = distinct non-empty announcement state reached",
 		func(c *vfCase) { sboxHistory(c, sboxMon{c09: true}, 24, 2) })
+}
+
+func TestVerif_C13(t *testing.T) {
+	vfMain(t, "C13", vfSizes{Quick: 150, Thorough: 2000}, sboxRule+"at every quiescent point every (service, address) the node's layer-2 announcer holds must be an address the Service has, with the interface scope the L2Advertisements selecting the address's pool and this node ask for, and the responder's per-interface decision must be exactly 'some held scope covers it'; non-trivial = distinct (pool, scope) compared",
+		func(c *vfCase) { sboxHistory(c, sboxMon{c13: true}, 26, 2) })
 }
 
 func sboxKnownNodes(sb *sbox) []string {
